@@ -680,11 +680,34 @@ def _func_hash(relfile, qualname):
     return hashlib.sha256(ast.dump(node, include_attributes=False).encode()).hexdigest()[:16]
 
 
+def _module_hash(relfile):
+    """Hash of a whole source file (docstrings blanked): a change anywhere in a file that holds an
+    anchored function escalates the budget too (helpers, sibling classes, module constants)."""
+    import ast
+
+    try:
+        tree = ast.parse(open(os.path.join(REPO, relfile)).read())
+    except Exception:
+        return "unparsable"
+    for sub in ast.walk(tree):
+        body = getattr(sub, "body", None)
+        if (
+            isinstance(body, list)
+            and body
+            and isinstance(body[0], ast.Expr)
+            and isinstance(getattr(body[0], "value", None), ast.Constant)
+            and isinstance(body[0].value.value, str)
+        ):
+            body[0].value.value = ""
+    return hashlib.sha256(ast.dump(tree, include_attributes=False).encode()).hexdigest()[:16]
+
+
 def anchor_state(mod):
     cur = {}
     for rel in mod.RELATIONS:
         for relfile, q in rel.anchors:
             cur[f"{relfile}::{q}"] = _func_hash(relfile, q)
+            cur[f"{relfile}::<module>"] = _module_hash(relfile)
     path = os.path.join(VERIF, "anchors.json")
     saved = {}
     if os.path.exists(path):
